@@ -8,9 +8,9 @@
    bonds (the checkers decide that output by output), that all enumerated forms aromatise to one form, that the results
    of the real code do not depend on the numbering. *)
 From Coq Require Import ZArith List Bool.
-From Model Require Import PyBase Graph PeriodicTable Valence Kekule.
+From Model Require Import PyBase Graph PeriodicTable Valence Kekule Thiele.
 From Gen Require Import Elements.
-From Proofs Require Import KekuleProofs KekuleExt KekuleValence.
+From Proofs Require Import KekuleProofs KekuleExt KekuleValence KekuleThiele.
 Import ListNotations.
 Open Scope Z_scope.
 
@@ -247,3 +247,13 @@ Theorem C05_carbon_h_examples : forall z1 z2 z3,
   calc_atom carbon_rules 6 0 false [(2, Some z1); (2, Some z2)] = Ok (Some 0).
 Proof. exact carbon_h_examples. Qed.
 Print Assumptions C05_carbon_h_examples.
+
+(* ---- the algorithm-level model of Thiele.thiele(fix_tautomers=False) (Model.Thiele.thiele_model: ring eligibility, quinone
+   removal, pruning, ring count, writing of aromatic bonds; tied by correspondence incl. the pruned skeleton): whatever the
+   ring search and the freak queries answer, it only writes bond orders - atoms with all their decorations and hydrogens and
+   the connectivity are those of the input - and a negative answer returns the input itself *)
+Theorem C05_thiele_model_preserves : forall g sssr rings2 fok o,
+  thiele_model g sssr rings2 fok = Ok o ->
+  m_atoms (o_mol o) = m_atoms g /\ graph_of (o_mol o) = graph_of g /\ (o_result o = false -> o_mol o = g).
+Proof. exact thiele_model_preserves. Qed.
+Print Assumptions C05_thiele_model_preserves.
